@@ -139,6 +139,15 @@ DKChain(deco) ==
              generic |-> [id |-> IdOf(RelRef(<<"generic">>)), items |-> [dynamicRef |-> LocalRef(FragName("T"))],
                           defs |-> [t |-> [dynamicAnchor |-> "T"]]]]]
 DKChainCases == {[base |-> DKChain(EmptyFcn), s |-> DKChain(d), raw |-> ("rawkeys" \in DOMAIN d), uri |-> DKChainURI] : d \in DKDecos \cup DKRaw}
+\* an UNREFERENCED $defs entry that is a schema resource of its own ($id) and uses, inside, the same reference
+\* text as the enclosing document ("#/$defs/name"): a fragment-only reference is relative to ITS resource
+DKVendor(extra) ==
+  [properties |-> [a |-> [ref |-> LocalRef(FragPtr(<<SegN("defs", "name")>>))]],
+   defs |-> [name |-> StrS] @@ extra]
+DKVendored == [vendored |-> [id |-> IdOf(URI("http", "h2", TRUE, <<"item.json">>)), defs |-> [name |-> IntS],
+                             properties |-> [a |-> [ref |-> LocalRef(FragPtr(<<SegN("defs", "name")>>))]]]]
+DKVendorCases == {[base |-> DKVendor(EmptyFcn), s |-> DKVendor(DKVendored), raw |-> FALSE, uri |-> DKChainURI],
+                  [base |-> DKVendor(EmptyFcn), s |-> DKVendor(EmptyFcn), raw |-> FALSE, uri |-> DKChainURI]}
 DKOk(c) == c.s # c.base
 
 \* ------------------------------------------------------------ RD: documents (C05, other direction)
@@ -207,6 +216,7 @@ Cases == CASE Family = "PO" -> POCases
            [] Family = "DK" -> {c \in DKCases \cup DKChainCases : DKOk(c)}
                                \cup {[base |-> b, s |-> b, raw |-> FALSE, uri |-> EmptyURI] : b \in DKBases}
                                \cup {[base |-> DKChain(EmptyFcn), s |-> DKChain(EmptyFcn), raw |-> FALSE, uri |-> DKChainURI]}
+                               \cup DKVendorCases
 
 Init == cs \in Cases /\ phase = "new"
 Next == phase = "new" /\ phase' = "done" /\ cs' = cs
